@@ -31,6 +31,8 @@ def run(ctx, chk):
     position_lookup_rule(ctx, chk)
     chk.rule("C16.R9", "a column is the offset of the position in its line: position - line start", floor=1)
     column_rule(ctx, chk)
+    chk.rule("C16.R11", "the table of line boundaries is built from the text that the messages are cut from, newline-terminated and not changed afterwards", floor=1)
+    line_table_text_rule(ctx, chk)
     chk.rule("C16.R10", "a position the assembler records for a later report is a position in the source, also inside a macro expansion", floor=1)
     recorded_position_rule(ctx, chk, GA, E)
     for nt_data in GA.g["nonterminals"]:
@@ -529,3 +531,117 @@ def recorded_position_rule(ctx, chk, GA, E):
                         chk.undecided_("C16.R10", f"{label}:record", "origin of the recorded position not recognised")
     if not seen:
         chk.undecided_("C16.R10", "records", "no forward-reference record found in the assembler actions")
+
+
+def line_table_text_rule(ctx, chk):
+    """C16.R11.  The driver cuts the line it shows out of a text with bounds taken from a table of newline positions.  The
+    table is built (somewhere below a call that returns a LexerHelper-like value) from a `&str` of a local String.  Two
+    structural facts are needed for the bounds to fit the text: (a) the String is not modified on any path after the call
+    that built the table (a later `push` makes the table one line short: the last line gets the bounds of the line before);
+    (b) the text is newline-terminated when the table is built: an unconditional `push('\\n')`, or a test `ends_with('\\n')`
+    whose failing side pushes one, lies on every path to the call - unless the table constructor itself adds an end
+    sentinel (then undecided).  Mutations are recognised as `&mut` borrows of the String local."""
+    from cfgtools import Defs
+    m = ctx.facts.mir("bin")
+    lib = ctx.facts.mir("lib")
+    table_types = set()
+    for s_ in lib["sigs"] + m["sigs"]:
+        # a constructor of a position table: fn(&str) -> T  whose T has lookup methods (&T, usize) -> (usize, ..)
+        pass
+    found = 0
+    for f in m["fns"]:
+        cfg = None
+        for bi, t in M.calls_in(f):
+            rty = t[3].get("ty") or ""
+            if not t[1].get("local") and "LexerHelper" not in rty:
+                continue
+            if "LexerHelper" not in rty or not t[2]:
+                continue
+            strargs = [a for a in t[2] if a[0] != "const" and (a[1].get("ty") or "") == "&str"]
+            if not strargs:
+                continue
+            cfg = cfg or M.CFG(f)
+            defs = Defs(f)
+            # origin of the &str: deref of a &String that borrows a local String
+            l = strargs[0][1]["l"]
+            text = None
+            for _ in range(8):
+                d = defs.single(l)
+                if d is None:
+                    break
+                if d[0] == "call" and d[2][2] and d[2][2][0][0] in ("copy", "move"):
+                    l = d[2][2][0][1]["l"]
+                elif d[0] == "assign" and d[2][2][0] == "ref":
+                    src = d[2][2][1]
+                    if not [x for x in src["p"] if x != "deref"] and "String" in (f["locals"][src["l"]]["ty"] or "") and not (f["locals"][src["l"]]["ty"] or "").startswith("&"):
+                        text = src["l"]
+                        break
+                    l = src["l"]
+                elif d[0] == "assign" and d[2][2][0] == "use" and d[2][2][1][0] in ("copy", "move"):
+                    l = d[2][2][1][1]["l"]
+                else:
+                    break
+            unit = f["name"].split("::")[-1]
+            file = f["span"].rsplit(":", 2)[0]
+            if text is None:
+                if unit != "preprocess":
+                    chk.undecided_("C16.R11", f"{unit}@bb{bi}", "the text the table is built from is not a local String of this function")
+                continue
+            found += 1
+            tname = f["locals"][text].get("name") or f"_{text}"
+            # (a) mutable borrows of the text reachable after the call
+            after = cfg.reachable_from(t[4]) if t[4] is not None else set()
+            muts = []
+            for b_i, b in enumerate(f["blocks"]):
+                for s_ in b.get("stmts", []):
+                    if s_[0] == "assign" and s_[2][0] == "ref" and s_[2][1]["l"] == text and not s_[2][1]["p"] and len(s_[2]) > 2 and "mut" in str(s_[2][2]):
+                        muts.append((b_i, s_[3] if len(s_) > 3 else None))
+            late = [(b_i, ln) for b_i, ln in muts if b_i in after]
+            if late:
+                chk.violation("C16.R11", unit, "text-modified-after-line-table-built",
+                              f"{f['name']}: `{tname}` is modified after the table of its line boundaries was built from it: the table no longer describes the text the messages are cut "
+                              f"from (a newline appended afterwards is not in the table, so the last line is shown with the bounds of the line before it)", f"{file}:{late[0][1]}")
+            else:
+                chk.ok("C16.R11", f"{unit}:{tname}:not-modified-after", "no mutable borrow of the text is reachable from the call that builds the table")
+            # (b) newline-terminated on every path to the call
+            pushes, tests = [], []
+            for b_i, t2 in M.calls_in(f):
+                d = t2[1].get("def") or ""
+                nl = any(a[0] == "const" and (a[1].get("val") == 10 or a[1].get("txt") in ('"\\n"', "'\\n'")) for a in t2[2])
+                if not nl:
+                    continue
+                if d.endswith("String::push") or d.endswith("String::push_str"):
+                    pushes.append(b_i)
+                elif "ends_with" in d:
+                    nxt = t2[4]
+                    tt = M.term(f["blocks"][nxt]) if nxt is not None else None
+                    if tt and tt[0] == "switch":
+                        false_t = next((tg for v, tg in tt[2] if v == 0), None)
+                        tests.append((b_i, false_t))
+            ok_b = False
+            for pb in pushes:
+                if cfg.dominates(pb, bi):
+                    ok_b = True
+            for tb, false_t in tests:
+                if cfg.dominates(tb, bi) and false_t is not None and bi not in cfg.reachable_from(false_t, avoid=set(pushes)):
+                    ok_b = True
+            if ok_b:
+                chk.ok("C16.R11", f"{unit}:{tname}:terminated", "every path to the table-building call appends a newline or has tested that the text ends in one")
+            else:
+                ctor = next((g for g in lib["fns"] if g["name"].endswith("LexerHelper::new")), None)
+                sentinel = False
+                if ctor is not None:
+                    c2 = M.CFG(ctor)
+                    loops = set()
+                    for tail, head in c2.back_edges():
+                        from rules_c19 import natural_loop
+                        loops |= natural_loop(c2, tail, head)
+                    sentinel = any((t3[1].get("def") or "").endswith("::push") and b3 not in loops for b3, t3 in M.calls_in(ctor))
+                if sentinel or late:
+                    chk.undecided_("C16.R11", f"{unit}:{tname}:terminated", "no newline guarantee before the call" + (" (reported as modified-after)" if late else "; the table constructor adds an entry outside its scan loop"))
+                else:
+                    chk.violation("C16.R11", unit, "text-not-newline-terminated",
+                                  f"{f['name']}: the table of line boundaries is built from `{tname}` without making sure that it ends in a newline; for a file whose last line is not "
+                                  f"terminated the lookup answers with the bounds of the line before it", f"{file}:{f['blocks'][bi]['term'].get('line')}")
+    if not found:
+        chk.undecided_("C16.R11", "driver", "no call that builds a line table from a local text found")
